@@ -143,6 +143,7 @@ func runOne(t *testing.T, wl *Workload, cfg string, seed uint64, replay map[stri
 	os.MkdirAll(dir, 0o755)
 	defer os.RemoveAll(dir)
 	finished := false
+	var cur *simrt.Sim
 	func() {
 		defer func() {
 			simrt.S = nil
@@ -151,9 +152,15 @@ func runOne(t *testing.T, wl *Workload, cfg string, seed uint64, replay map[stri
 				if finished && (strings.Contains(msg, "blocked goroutines remain") || strings.Contains(msg, "all goroutines in bubble are blocked")) {
 					return // abandoned goroutines at the end of a bubble (endless tickers, blocked cron senders)
 				}
-				buf := make([]byte, 1<<16)
+				buf := make([]byte, 1<<21)
 				n := runtime.Stack(buf, os.Getenv("VERIF_ALLSTACKS") != "")
 				out.Infra = "panic outside tasks: " + msg + "\n" + string(buf[:n])
+				if cur != nil {
+					out.Infra += "\nparked: " + strings.Join(cur.ParkedSites(), "; ")
+					if d := os.Getenv("VERIF_DUMP"); d != "" {
+						os.WriteFile(d, []byte(strings.Join(cur.Events, "\n")+"\n"), 0o644)
+					}
+				}
 			}
 		}()
 		synctest.Test(t, func(t *testing.T) {
@@ -167,6 +174,7 @@ func runOne(t *testing.T, wl *Workload, cfg string, seed uint64, replay map[stri
 				tp = simrt.NewTape(seed)
 			}
 			s := simrt.New(tp)
+			cur = s
 			s.KeepLog = detail
 			e := &Env{T: t, S: s, WL: tp.St("workload"), FL: tp.St("faults"), Seed: seed, Cfg: parseCfg(cfg), Out: &out, Dir: dir, Detail: detail, T0: time.Now()}
 			simrt.S = s
@@ -495,7 +503,33 @@ func TestWorker(t *testing.T) {
 			total += p.Quick
 		}
 	}
+	if os.Getenv("VERIF_PLAN") != "" {
+		// print the plan (runs per worker and part) for the driver's chunking
+		type pp struct {
+			WL, Cfg string
+			N       int
+		}
+		var out []pp
+		for _, p := range plan {
+			n := p.Quick
+			if tier == "thorough" {
+				n = p.Thor
+			}
+			n = n * scale / 100
+			if n < 1 {
+				n = 1
+			}
+			out = append(out, pp{p.WL, p.Cfg, n})
+		}
+		b, _ := json.Marshal(out)
+		fmt.Println("PLAN " + string(b))
+		return
+	}
+	onlyPart := envInt("VERIF_PART", -1)
 	for pi, p := range plan {
+		if onlyPart >= 0 && pi != onlyPart {
+			continue
+		}
 		wl := workloads[p.WL]
 		if wl == nil {
 			fmt.Printf("INFRA unknown workload %s\n", p.WL)
@@ -511,12 +545,20 @@ func TestWorker(t *testing.T) {
 		}
 		// each part gets a share of the wall budget proportional to nothing fancy: equal shares
 		partDeadline := start.Add(budget * time.Duration(pi+1) / time.Duration(len(plan)))
+		if onlyPart >= 0 {
+			partDeadline = start.Add(budget)
+		}
 		ps := &partSummary{WL: p.WL, Cfg: p.Cfg, Counters: map[string]int{}}
 		sum.Parts = append(sum.Parts, ps)
 		pstart := time.Now()
 		// disjoint seed blocks: base seed, part, worker
 		seed0 := baseSeed*1_000_000_007 + uint64(pi)*10_000_019 + uint64(worker)*uint64(n)
-		if pi == 0 {
+		if onlyPart >= 0 {
+			// chunk mode: the driver hands out offsets into the part's seed block
+			seed0 = baseSeed*1_000_000_007 + uint64(pi)*10_000_019 + uint64(envInt("VERIF_OFF", 0))
+			n = envInt("VERIF_CNT", n)
+		}
+		if pi == 0 || onlyPart >= 0 {
 			sum.Seed0 = seed0
 		}
 		for i := 0; i < n; i++ {
@@ -525,7 +567,7 @@ func TestWorker(t *testing.T) {
 				break
 			}
 			seed := seed0 + uint64(i)
-			wantSample := worker == 0 && i < 2
+			wantSample := (worker == 0 || envInt("VERIF_OFF", -1) == 0) && i < 2
 			if os.Getenv("VERIF_TRACE") != "" {
 				fmt.Fprintf(os.Stderr, "run %s %s %d\n", p.WL, p.Cfg, seed)
 			}
